@@ -62,6 +62,22 @@ def gen(seed, tier):
                 segs.append(seg(0, [g.odd_frame(d, icao)]))
             cases.append(H("C06-f%d" % n, dict(o), segs))
             n += 1
+    # in ONE reader run: consecutive replies whose 13-bit fields differ in exactly one bit (each of the 13 positions, the first
+    # one -- bit 20, the last bit of the fifth hex digit -- included), from the same and from different aircraft, identity and
+    # altitude replies mixed: every reply is decoded from its own bits, nothing is remembered from the previous frame
+    for rep in range(4 if tier == "quick" else 40):
+        for bit in range(13):
+            pool = r.sample(ICAOS, 2)
+            base = r.getrandbits(13)
+            lines = []
+            for k, c in enumerate([base, base ^ (1 << bit), base, base ^ (1 << bit) ^ (1 << r.randrange(13))]):
+                a = pool[0] if rep % 2 else pool[k % 2]
+                df = r.choice([5, 5, 21, 4]) if k else 5
+                f27 = (r.getrandbits(14) << 13) | c
+                lines.append(g.f_short(df, a, f27) if df in (4, 5) else g.f_long(df, a, f27, g.mb_any()))
+            o = {"U": 1} if bit % 2 else {}
+            cases.append(H("C06-n%d" % n, o, [seg(0, [g.f_df11(pool[0], ca=5), g.f_df11(pool[1], ca=5)] + lines)]))
+            n += 1
     # the squawk as SHOWN: the SQWK cell of the CLI table holds all four digits (leading zeros included)
     for rep in range(3 if tier == "quick" else 30):
         lines = []
